@@ -142,17 +142,29 @@ func runC04(rc *RunCtx) {
 // over distinct accepted burn messages; checked through the ledger (supply delta) by the per-tx ledger monitor.
 func c04Conservation(e *Engine) {
 	e.Rc.Cov.Assert("C04.conservation")
-	// supply = initial + minted - burned ; initial is what the chain was funded with
+	if e.SumMintReq == nil {
+		return
+	}
+	// (a) total minted = sum of amounts of the accepted burn messages
+	if e.SumMintReq.Cmp(e.SumAccepted) != 0 {
+		e.viol([]string{"C04"}, "conservation", "mint-conservation",
+			fmt.Sprintf("total minted through the module %s != sum of amounts over accepted burn messages %s", e.SumMintReq, e.SumAccepted), nil)
+	}
+	// (b) supply destroyed through the module = sum of burn-message amounts of the deposits
+	if e.SumBurnReq.Cmp(e.SumDeposits) != 0 {
+		e.viol([]string{"C05"}, "conservation", "burn-conservation",
+			fmt.Sprintf("supply destroyed through the module %s != sum of burn-message amounts over outbound deposits %s", e.SumBurnReq, e.SumDeposits), nil)
+	}
+	// (c) the ledger agrees: supply = initial + minted - burned
 	init := new(big.Int)
 	for _, v := range e.Cfg.Funded {
 		init.Add(init, v)
 	}
-	want := new(big.Int).Add(init, e.M.Minted)
-	want.Sub(want, e.M.Burned)
-	got := e.C.Supply(e.MintDenom())
-	if got.Cmp(want) != 0 {
+	want := new(big.Int).Add(init, e.SumMintReq)
+	want.Sub(want, e.SumBurnReq)
+	if got := e.C.Supply(e.MintDenom()); got.Cmp(want) != 0 {
 		e.viol([]string{"C04", "C05"}, "conservation", "supply-conservation",
-			fmt.Sprintf("supply %s != initial %s + minted %s (sum over %d accepted burn messages) - burned %s", got, init, e.M.Minted, e.M.AcceptedBurnMsg, e.M.Burned), nil)
+			fmt.Sprintf("supply %s != initial %s + minted %s - burned %s", got, init, e.SumMintReq, e.SumBurnReq), nil)
 	}
 }
 
